@@ -111,6 +111,15 @@ Definition hkdf (salt ikm info : bytes) (len : N) : bytes :=
   hkdf_expand (hkdf_extract salt ikm) info len.
 End Hkdf.
 
+(* ------------------------------------------------ HKDF info strings (RFC 9580 5.3.2, 3.7.2.1) *)
+
+(* SKESK v6: packet type octet 0xC3, version 6, cipher, AEAD mode *)
+Definition skesk6_info (sym aead : N) : bytes := [xc3; x06; n2b sym; n2b aead].
+
+(* AEAD-locked secret key (S2K usage 253): the packet type octet of the key packet (0xC5 secret key,
+   0xC7 secret subkey), the version of THAT key packet, cipher, AEAD mode *)
+Definition keylock_info (tag ver sym aead : N) : bytes := [n2b (192 + tag); n2b ver; n2b sym; n2b aead].
+
 (* ------------------------------------------------ AES key wrap (RFC 3394) *)
 
 Section AesKw.
